@@ -11,7 +11,7 @@ RULE = ("every case of each listed space is executed on nearest_neighbor and sym
         "set is non-empty; distinct = distinct case tuples (digest-sharded)")
 ASSUMPTIONS = ["strings longer than the stated bounds / alphabets larger than 4 letters are covered only through the CDR3 one-edit/two-edit ball families",
                "rapidfuzz is exercised, not trusted: every reported d is compared with the reference"]
-REQUIRED_CLASSES = {"all": ["clone-of-more-than-128-copies", "non-amino-acid-symbol-after-long-prefix", "all-sequences-of-one-length", "container-reused-with-new-contents", "size-boundary-family", "non-ascii-alphabet", "needs-indel", "has-empty-string", "duplicate-at-distance-0", "shorter-than-k", "homopolymer", "large-radius-on-long-strings"]}
+REQUIRED_CLASSES = {"all": ["clone-of-more-than-128-copies", "non-amino-acid-symbol-after-long-prefix", "all-sequences-of-one-length", "container-reused-with-new-contents", "size-boundary-family", "non-ascii-alphabet", "needs-indel", "has-empty-string", "duplicate-at-distance-0", "shorter-than-k", "homopolymer", "large-radius-on-long-strings", "strings-across-the-64-residue-word-size"]}
 MIN_OUTCOMES = 10
 
 CDR3_SEEDS = ("CASSLGQAYEQYF", "CAVRDSNYQLIW", "CASSPTGGDTQYF", "CAS")
@@ -89,6 +89,11 @@ def spaces(tier):
         for si, k in ((0, 4), (1, 4), (2, 4), (4, 4), (0, 5), (3, 3), (3, 4), (0, 3)):
             yield ("radius", si, k)
         yield ("radius-46", 2)
+        # strings around the 64-residue machine-word size of bit-parallel scorers (and 128): block deletions at the very front, in the
+        # middle and at the end, spread substitutions, a residue that occurs once replaced by one that occurs nowhere else
+        for L in (63, 64, 65, 66, 81, 127, 128, 129, 130):
+            for k in (1, 2):
+                yield ("radius-long", L, k)
         yield ("clone", 150, 1)
         yield ("clone-split", 600, 500, 1)      # > 1024 copies of one sequence, a neighbour placed between two runs of the copies
         yield ("clone", 257, 2)
@@ -111,7 +116,7 @@ def spaces(tier):
 
     return [
         Space("all-pairs-of-universe", gen_allpairs, "whole universe U(alphabet,L) as one list, fwd and reversed order: %s x k in 1..4 (thorough: 1..3, and k=4 on the quick universes), k=L+1; thorough also U(AC,10), U(ACD,7) x k in 1..2" % uni, per_case=True),
-        Space("size-boundary-and-non-ascii", gen_size, "collections of 257, 1025 and 65560 strings whose positions next to 0, 256, 1024, 65536 and the end hold a clonal family (fillers mutually >= 2 edits apart); universes over multi-byte alphabets {A, alpha, e-acute} and {alpha, CJK}, with NUL, with separator-like characters (| _ .); all strings of exactly one length (AC^6, ACD^4, ACDE^3)", per_case=True),
+        Space("size-boundary-and-non-ascii", gen_size, "collections of 257, 1025 and 65560 strings whose positions next to 0, 256, 1024, 65536 and the end hold a clonal family (fillers mutually >= 2 edits apart); universes over multi-byte alphabets {A, alpha, e-acute} and {alpha, CJK}, with NUL, with separator-like characters (| _ .); all strings of exactly one length (AC^6, ACD^4, ACDE^3); radius families (block deletions at front / middle / end, spread substitutions, indel mixtures) around seeds of 14..46 residues at k = 2..5 and around seeds of 63..66, 81, 127..130 residues (64-residue word size) at k = 1..2", per_case=True),
         Space("all-lists", gen_lists, "all ordered lists with repetition: Lists(U(AC,2),3) [quick] / Lists(U(AC,2),4)+Lists(U(AC,3),3) [thorough] x k in 1..3"),
         Space("same-container-new-contents", gen_reuse, "one list / ndarray object searched, overwritten in place with every other list of the same length over U(AC,2) (lengths 2..3) and searched again: the second answer must be that of the new contents", shards=32),
         Space("cdr3-edit-ball-families", gen_family, "complete one-edit ball over the 20 amino acids (thorough: + two-edit ball over ACSG) around %d CDR3 seeds, k in 1..2(3)" % len(CDR3_SEEDS), per_case=True),
@@ -163,6 +168,12 @@ def build(case):
         return fill + [base[:4] + "X" + base[5:], base[:4] + "*" + base[5:], base.lower(), base[:7] + "x" + base[8:], base + "X"], k
     if kind == "radius":
         return E.radius_family(E.RADIUS_SEEDS[case[1]], case[2]), case[2]
+    if kind == "radius-long":
+        _, L, k = case
+        letters = "ACDEFGHIKLNPQRSTVY"
+        seed = [letters[(i * 7 + (i // 18) * 3 + (i * i) // 5) % 18] for i in range(L)]
+        seed[L // 2] = "M"                      # occurs once; radius_family substitutes it by W, which occurs nowhere
+        return E.radius_family("".join(seed), k), k
     if kind == "radius-46":
         return E.radius_family("CASSLGQGNTEAFFGQGTRLTVVEDLKNVFPPEVAVFEPSEAEISHC", case[1]), case[1]
     if kind == "eqlen":
@@ -212,6 +223,8 @@ def check_case(case, acc):
         acc.cls("all-sequences-of-one-length")
     if case[0] in ("radius", "radius-46"):
         acc.cls("large-radius-on-long-strings")
+    if case[0] == "radius-long":
+        acc.cls("strings-across-the-64-residue-word-size")
     if case[0] in ("clone", "clone-split"):
         acc.cls("clone-of-more-than-128-copies")
     if case[0] == "late-symbol":
